@@ -33,20 +33,20 @@ theorem beq_symm' {α : Type} [BEq α] [LawfulBEq α] (a b : α) : (a == b) = (b
     have h2 : (b == a) = false := by simpa using (fun h' => h h'.symm)
     rw [h1, h2]
 
-theorem keyEq_eq (x v : Atom) : keyEq (cmpKey x) (cmpKey v) = (eqAtom? x v == some true) := by
+theorem keyEq_eq (cl : Coll) (x v : Atom) : keyEq cl (cmpKey x) (cmpKey v) = (eqAtomC? cl x v == some true) := by
   cases x <;> cases v <;>
-    simp [keyEq, cmpKey, eqAtom?, kind, Atom.isBool, Atom.isNumeric, otherEq, stringOfKey, numEqP_eq]
+    simp [keyEq, cmpKey, eqAtomC?, eqAtom?, kind, Atom.isBool, Atom.isNumeric, otherEq, stringOfKey, numEqP_eq]
 
-theorem indexOfLoop_eq (v : Atom) (xs : Seq) (pos : Nat) :
-    indexOfLoop (cmpKey v) pos xs =
-      ((xs.zipIdx pos).filter fun t => eqAtom? t.1 v == some true).map Prod.snd := by
+theorem indexOfLoop_eq (cl : Coll) (v : Atom) (xs : Seq) (pos : Nat) :
+    indexOfLoop cl (cmpKey v) pos xs =
+      ((xs.zipIdx pos).filter fun t => eqAtomC? cl t.1 v == some true).map Prod.snd := by
   induction xs generalizing pos with
   | nil => rfl
   | cons x xs ih =>
     simp only [indexOfLoop, List.zipIdx_cons, List.filter_cons, keyEq_eq]
     split <;> simp_all
 
-theorem indexOf_eq (xs : Seq) (v : Atom) : indexOf xs v = Spec.indexOf xs v := by
+theorem indexOf_eq (cl : Coll) (xs : Seq) (v : Atom) : indexOf cl xs v = Spec.indexOf cl xs v := by
   simp [indexOf, Spec.indexOf, indexOfLoop_eq, positions, List.map_map, Function.comp_def]
 
 /-! ### effective boolean value -/
@@ -104,13 +104,13 @@ theorem fnStringJoin_eq (doc : List String) (s : Seq) (sep : Option Seq) :
 /-! ### distinct-values -/
 
 /-- what the loop tests for the key `ky` of a new value against a stored key `kx` -/
-def keyTest (ky kx : Atom) : Bool :=
+def keyTest (cl : Coll) (ky kx : Atom) : Bool :=
   if ky.isNumeric then kx.isNumeric && numEqP ky kx
-  else (ky.isBool == kx.isBool) && otherEq ky kx
+  else (ky.isBool == kx.isBool) && otherEq cl ky kx
 
 /-- "has been produced already", as the loop decides it -/
-def seenM (nan : Bool) (results : Seq) (y : Atom) : Bool :=
-  if (cmpKey y).isNaN then nan else results.any fun kx => keyTest (cmpKey y) kx
+def seenM (cl : Coll) (nan : Bool) (results : Seq) (y : Atom) : Bool :=
+  if (cmpKey y).isNaN then nan else results.any fun kx => keyTest cl (cmpKey y) kx
 
 theorem isNaN_cmpKey (y : Atom) : (cmpKey y).isNaN = (y == .dbl .nan) := by
   cases y with
@@ -124,43 +124,46 @@ theorem numEq_symm (a b : Atom) : numEq a b = numEq b a := by
   simp only [numEq, eqD, Bool.or_comm (isDouble a)]
   split <;> exact XV.eqv_symm _ _
 
-theorem eqAtom_symm (a b : Atom) : (eqAtom? a b == some true) = (eqAtom? b a == some true) := by
-  cases a <;> cases b <;> simp [eqAtom?, kind, stringOfKey] <;>
-    first | done | exact numEq_symm _ _ | exact beq_symm' _ _ | (rw [numEq_symm])
+theorem collEq_symm (cl : Coll) (s t : String) : collEq cl s t = collEq cl t s := by
+  cases cl <;> simp only [collEq] <;> exact beq_symm' _ _
 
-theorem sameValue_symm (a b : Atom) : sameValue a b = sameValue b a := by
+theorem eqAtom_symm (cl : Coll) (a b : Atom) : (eqAtomC? cl a b == some true) = (eqAtomC? cl b a == some true) := by
+  cases a <;> cases b <;> simp [eqAtomC?, eqAtom?, kind, stringOfKey] <;>
+    first | done | exact numEq_symm _ _ | exact collEq_symm _ _ _ | exact beq_symm' _ _ | (rw [numEq_symm]) | (rw [collEq_symm])
+
+theorem sameValue_symm (cl : Coll) (a b : Atom) : sameValue cl a b = sameValue cl b a := by
   unfold sameValue
-  rw [eqAtom_symm a b, Bool.and_comm]
+  rw [eqAtom_symm cl a b, Bool.and_comm]
 
 theorem XV.eqv_nan_left (b : XV) : XV.eqv .nan b = false := by cases b <;> rfl
 theorem XV.eqv_nan_right (a : XV) : XV.eqv a .nan = false := by cases a <;> rfl
 
-theorem eqAtom_nan_left (b : Atom) : (eqAtom? (.dbl .nan) b == some true) = false := by
-  cases b <;> simp [eqAtom?, kind, numEq, isDouble, eqD, toDouble, D.val, XV.eqv_nan_left]
+theorem eqAtom_nan_left (cl : Coll) (b : Atom) : (eqAtomC? cl (.dbl .nan) b == some true) = false := by
+  cases b <;> simp [eqAtomC?, eqAtom?, kind, numEq, isDouble, eqD, toDouble, D.val, XV.eqv_nan_left]
 
-theorem eqAtom_nan_right (a : Atom) : (eqAtom? a (.dbl .nan) == some true) = false := by
-  rw [eqAtom_symm]; exact eqAtom_nan_left a
+theorem eqAtom_nan_right (cl : Coll) (a : Atom) : (eqAtomC? cl a (.dbl .nan) == some true) = false := by
+  rw [eqAtom_symm]; exact eqAtom_nan_left cl a
 
 /-- the test of the loop against the key of a kept value is `sameValue` (for a kept value
 that is not NaN) -/
-theorem keyTest_eq (y k : Atom) (hy : (y == Atom.dbl .nan) = false) (hk : (k == Atom.dbl .nan) = false) :
-    keyTest (cmpKey y) (cmpKey k) = sameValue k y := by
+theorem keyTest_eq (cl : Coll) (y k : Atom) (hy : (y == Atom.dbl .nan) = false) (hk : (k == Atom.dbl .nan) = false) :
+    keyTest cl (cmpKey y) (cmpKey k) = sameValue cl k y := by
   unfold sameValue
   rw [hk, Bool.false_and, Bool.false_or, eqAtom_symm]
   cases y <;> cases k <;>
-    simp [keyTest, cmpKey, eqAtom?, kind, Atom.isBool, Atom.isNumeric, otherEq, stringOfKey, numEqP_eq]
+    simp [keyTest, cmpKey, eqAtomC?, eqAtom?, kind, Atom.isBool, Atom.isNumeric, otherEq, stringOfKey, numEqP_eq, collEq_symm]
 
-theorem sameValue_nan_left (y : Atom) : sameValue (.dbl .nan) y = (y == .dbl .nan) := by
+theorem sameValue_nan_left (cl : Coll) (y : Atom) : sameValue cl (.dbl .nan) y = (y == .dbl .nan) := by
   unfold sameValue
   simp [eqAtom_nan_left]
 
-theorem sameValue_nan_right (k : Atom) : sameValue k (.dbl .nan) = (k == .dbl .nan) := by
+theorem sameValue_nan_right (cl : Coll) (k : Atom) : sameValue cl k (.dbl .nan) = (k == .dbl .nan) := by
   rw [sameValue_symm, sameValue_nan_left]
 
-theorem distinctLoop_step (nan : Bool) (results : Seq) (v : Atom) (vs : Seq) :
-    distinctLoop nan results (v :: vs) =
-      if seenM nan results v then distinctLoop nan results vs
-      else v :: distinctLoop (nan || (cmpKey v).isNaN)
+theorem distinctLoop_step (cl : Coll) (nan : Bool) (results : Seq) (v : Atom) (vs : Seq) :
+    distinctLoop cl nan results (v :: vs) =
+      if seenM cl nan results v then distinctLoop cl nan results vs
+      else v :: distinctLoop cl (nan || (cmpKey v).isNaN)
         (if (cmpKey v).isNaN then results else results ++ [cmpKey v]) vs := by
   simp only [distinctLoop, seenM, keyTest]
   by_cases hnum : (cmpKey v).isNumeric
@@ -175,11 +178,11 @@ theorem distinctLoop_step (nan : Bool) (results : Seq) (v : Atom) (vs : Seq) :
       | dbl d => simp [cmpKey, Atom.isNumeric] at hnum
       | _ => simp [cmpKey, Atom.isNaN]
     simp only [hnum, hnan, Bool.false_eq_true, if_false, Bool.or_false, List.all_eq_not_any_not, Bool.not_not]
-    cases results.any fun x => (cmpKey v).isBool == x.isBool && otherEq (cmpKey v) x <;> simp
+    cases results.any fun x => (cmpKey v).isBool == x.isBool && otherEq cl (cmpKey v) x <;> simp
 
-theorem distinctLoop_eq (vs : Seq) : ∀ (nan : Bool) (results kept : Seq),
-    (∀ y, seenM nan results y = kept.any fun k => sameValue k y) →
-    distinctLoop nan results vs = Spec.distinctFrom kept vs := by
+theorem distinctLoop_eq (cl : Coll) (vs : Seq) : ∀ (nan : Bool) (results kept : Seq),
+    (∀ y, seenM cl nan results y = kept.any fun k => sameValue cl k y) →
+    distinctLoop cl nan results vs = Spec.distinctFrom cl kept vs := by
   induction vs with
   | nil => intros; rfl
   | cons v vs ih =>
@@ -211,9 +214,9 @@ theorem distinctLoop_eq (vs : Seq) : ∀ (nan : Bool) (results kept : Seq),
           simp [sameValue_nan_right, hv0]
         · have hy0 : (y == Atom.dbl .nan) = false := by simpa using hy
           simp only [hy0, Bool.false_eq_true, if_false, List.any_append, List.any_cons, List.any_nil, Bool.or_false]
-          rw [keyTest_eq y v hy0 hv0]
+          rw [keyTest_eq cl y v hy0 hv0]
 
-theorem distinctValues_eq (xs : Seq) : distinctValues xs = Spec.distinctValues xs := by
+theorem distinctValues_eq (cl : Coll) (xs : Seq) : distinctValues cl xs = Spec.distinctValues cl xs := by
   unfold distinctValues Spec.distinctValues
   apply distinctLoop_eq
   intro y
